@@ -5,7 +5,7 @@
 set -u
 SRC="$1"; X="$2"; ID="$3"; shift 3
 EXTRA="$*"
-OUT=/verif/seeded/$ID-$X
+OUT=/verif/seeded/$ID-${AS:-$X}
 S="$SRC/_seed/$X"
 [ -f "$S/patch.diff" ] || { echo "no patch in $S"; exit 3; }
 mkdir -p "$OUT"
@@ -14,7 +14,7 @@ cp "$S/meta.json" "$OUT/meta.agent.json" 2>/dev/null
 rm -f "$OUT/demo.rs"
 # a script-style demonstration wins; otherwise the test file `demo.rs`
 if [ ! -f "$S/demo.sh" ] && [ -f "$S/demo.rs" ]; then cp "$S/demo.rs" "$OUT/demo.rs"; fi
-WT=/tmp/seedeval-$ID-$X
+WT=/tmp/seedeval-$ID-${AS:-$X}
 rm -rf "$WT"; git -C /repo worktree prune; git -C /repo worktree add -q "$WT" HEAD || exit 3
 export CARGO_TARGET_DIR=/tmp/seedeval-target CARGO_NET_OFFLINE=true
 LOG="$OUT/confirm.log"; : > "$LOG"
@@ -60,7 +60,7 @@ for P in $ID $EXTRA; do
   rm -rf /verif/replays/$P
 done
 git -C /repo worktree remove --force "$WT"
-python3 - "$OUT" "$ID" "$X" "$res_without" "$res_with" "$suite" "$verdicts" <<'PY'
+python3 - "$OUT" "$ID" "${AS:-$X}" "$res_without" "$res_with" "$suite" "$verdicts" <<'PY'
 import json,sys,os
 out,pid,x,rw,rwith,suite,verd=sys.argv[1:8]
 agent={}
